@@ -25,6 +25,7 @@ import (
 	"sort"
 	"strconv"
 	"strings"
+	"time"
 
 	"github.com/pdfcpu/pdfcpu/pkg/api"
 	"github.com/pdfcpu/pdfcpu/pkg/pdfcpu"
@@ -103,9 +104,12 @@ type outInfo struct {
 func evaluate(info outInfo, out []byte, eol string, oracle bool, ctxFrees []freeEnt, ctxSize int, ctxGens map[int]int) {
 	info.Len = len(out)
 	ck := checkFile(out, eol, info.Enc)
-	kind := "table"
-	if ck.sec != nil && ck.sec.stream {
-		kind = "stream"
+	kind := info.XRef // what was asked for; what was found when the section parses
+	if kind == "" {
+		kind = "table"
+	}
+	if ck.sec != nil {
+		kind = map[bool]string{true: "stream", false: "table"}[ck.sec.stream]
 	}
 	r.Count("out:" + info.Op)
 	r.Count("cfg:" + eolNames[eolIndex(eol)] + "/" + info.XRef + map[bool]string{true: "+objstm", false: ""}[info.ObjStm] + map[bool]string{true: "+enc", false: ""}[info.Enc])
@@ -136,6 +140,9 @@ func evaluate(info outInfo, out []byte, eol string, oracle bool, ctxFrees []free
 				default:
 					cl = f.class + ":" + info.Variant
 				}
+			}
+			if f.class == "xref-stream-width" {
+				cl = "xref-stream-width:stream" // one root cause whatever the document
 			}
 			r.OracleFail(cl, info, f.detail)
 		}
@@ -259,6 +266,89 @@ func randBody() string {
 	default:
 		return bodyTemplates[r.Rand.Intn(len(bodyTemplates))]
 	}
+}
+
+// synthStream drives writeXRefStream through the verif hooks on a crafted context whose object numbers are
+// far larger than any file offset: a high in-use object, high free entries (next-free links in column 2)
+// and a high-numbered object stream (type 2 rows carry its number in column 2). The file stays tiny, so
+// only max(/Size, offset) gives a sufficient /W[1]. Cheap even for /Size 2^24 (the API path is O(/Size)).
+func synthStream(i int, H int, eolIdx int) {
+	eol := eols[eolIdx]
+	size := H + 1
+	xt := &model.XRefTable{Table: map[int]*model.XRefTableEntry{}}
+	xt.Size = &size
+	xt.Root = types.NewIndirectRef(1, 0)
+	conf := model.NewDefaultConfiguration()
+	conf.Eol = eol
+	conf.WriteXRefStream = true
+	conf.WriteObjectStream = false
+	wc := model.NewWriteContext(eol)
+	var buf bytes.Buffer
+	wc.Writer = bufio.NewWriter(&buf)
+	ctx := &model.Context{Configuration: conf, XRefTable: xt, Write: wc}
+	// roles of the high numbers H, H-1, H-2, H-3
+	shape := i % 4 // 0: high in-use object; 1: two high free entries; 2: high object stream; 3: all of them
+	low := 2 + r.Rand.Intn(6)
+	mkFree := func(nr int, next int64, gen int) {
+		xt.Table[nr] = &model.XRefTableEntry{Free: true, Offset: &next, Generation: &gen}
+	}
+	var panicked any
+	func() {
+		defer func() { panicked = recover() }()
+		must(pdfcpu.VerifC18WriteHeader(wc, model.V17))
+		plain := func(nr int) {
+			g := 0
+			xt.Table[nr] = &model.XRefTableEntry{Generation: &g, Object: types.Integer(1)}
+			must(pdfcpu.VerifC18WriteObject(ctx, nr, 0, randBody()))
+		}
+		for nr := 1; nr <= low; nr++ {
+			plain(nr)
+		}
+		headNext := int64(0)
+		if shape == 1 || shape == 3 {
+			// 0 -> H-1 -> H-2 -> 0 ; the xref stream recycles H-1, H-2 stays free and is linked from object 0
+			mkFree(H-1, int64(H-2), 1)
+			mkFree(H-2, 0, 2)
+			headNext = int64(H - 1)
+		}
+		mkFree(0, headNext, 65535)
+		if shape == 2 || shape == 3 {
+			// object stream H-3 holding object low+1
+			member := low + 1
+			prolog := fmt.Sprintf("%d 0", member)
+			content := prolog + " " + "<</C18 true>>"
+			l := int64(len(content))
+			d := types.NewDict()
+			d.Insert("Type", types.Name("ObjStm"))
+			d.Insert("N", types.Integer(1))
+			d.Insert("First", types.Integer(len(prolog)+1))
+			d.Insert("Length", types.Integer(l))
+			sd := types.StreamDict{Dict: d, Raw: []byte(content), StreamLength: &l}
+			g := 0
+			on, ind := H-3, 0
+			xt.Table[on] = &model.XRefTableEntry{Generation: &g, Object: sd}
+			must(pdfcpu.VerifC18WriteStreamDictObject(ctx, on, 0, sd))
+			g2 := 0
+			xt.Table[member] = &model.XRefTableEntry{Generation: &g2, Object: types.Boolean(true), Compressed: true, ObjectStream: &on, ObjectStreamInd: &ind}
+			wc.SetWriteOffset(member)
+		}
+		if shape == 0 || shape == 3 || shape == 2 {
+			plain(H) // keeps /Size = highest + 1
+		} else {
+			// shape 1: the highest number is the free entry H-1 ... make H a dead free entry instead
+			mkFree(H, 0, 65535)
+		}
+		must(pdfcpu.VerifC18WriteXRef(ctx))
+		must(pdfcpu.VerifC18WriteTrailer(wc))
+		must(wc.Flush())
+	}()
+	info := outInfo{Source: fmt.Sprintf("synthetic-xrefstream#%d(H=%d,shape=%d)", i, H, shape), Op: "synthetic-xrefstream", Eol: eolNames[eolIdx], XRef: "stream", Seed: r.Seed}
+	if panicked != nil {
+		r.OracleFail("panic:synthetic-xrefstream", info, fmt.Sprint(panicked))
+		return
+	}
+	r.Count(fmt.Sprintf("synth-xrefstream:shape%d", shape))
+	evaluate(info, buf.Bytes(), eol, true, nil, -1, nil)
 }
 
 func synthetic(i int) {
@@ -785,7 +875,10 @@ func sparse() {
 		}},
 		{"optimize", func(in []byte, w io.Writer, c *model.Configuration) error { return api.Optimize(rd(in), w, c) }},
 	}
-	for _, H := range []int{65535, 65536, 70000, 1 << 24, 1<<24 + 1} {
+	// pdfcpu's write is O(/Size) with a large constant (about 1 s for /Size 70001, 85 s for 2^24 on the build
+	// machine), so the API-level sparse documents are few; the 2^24 range is covered by synthStream.
+	hs := []int{65535, 65536, 70000}
+	for _, H := range hs {
 		for _, free := range []bool{false, true} {
 			in := rawSparse(H, free)
 			if ck := checkFile(in, "\n", false); len(ck.findings) > 0 {
@@ -795,9 +888,18 @@ func sparse() {
 			if free {
 				variant = "sparse-free"
 			}
-			for _, p := range paths {
+			for pi, p := range paths {
 				for eolIdx := 0; eolIdx < 3; eolIdx++ {
 					for k := 0; k < 3; k++ {
+						if !r.Thorough() {
+							// quick: every xref-stream configuration once (alternating the path), one table output
+							if k == 0 && (eolIdx != 0 || pi != 0) {
+								continue
+							}
+							if k > 0 && (eolIdx+k+pi)%2 != 0 {
+								continue
+							}
+						}
 						eol := eols[eolIdx]
 						c := conf(eol, k >= 1, k == 2)
 						var out bytes.Buffer
@@ -1052,12 +1154,33 @@ func main() {
 	defer r.Finish()
 	api.DisableConfigDir()
 	modelLimit = r.Pick(70_000, 200_000)
+	t0 := time.Now()
+	lap := func(what string) {
+		fmt.Fprintf(os.Stderr, "c18: %-10s %6.1fs\n", what, time.Since(t0).Seconds())
+		t0 = time.Now()
+	}
 	units()
 	undeleteUnits()
+	lap("units")
 	for i := 0; i < r.Pick(250, 3000); i++ {
 		synthetic(i)
 	}
+	k := 0
+	for _, H := range []int{65535, 65536, 70000, 1<<24 - 1, 1 << 24, 1<<24 + 1, 1 << 32} {
+		for eolIdx := 0; eolIdx < 3; eolIdx++ {
+			for shape := 0; shape < 4; shape++ {
+				for rep := 0; rep < r.Pick(1, 5); rep++ {
+					synthStream(k*4+shape, H, eolIdx)
+					k++
+				}
+			}
+		}
+	}
+	lap("synthetic")
 	generated()
+	lap("generated")
 	sparse()
+	lap("sparse")
 	documents()
+	lap("documents")
 }
